@@ -252,7 +252,7 @@ CONTROLS = ["c10_result_dropped", "c10_future_not_awaited", "c10_continues_after
 EXPLANATION = ("C10 (a storage error surfaces and is recoverable): decides the error discipline of every call site of a function from which a RandomAccess "
                "operation is call-graph reachable — no Result of such a call is dropped or discarded (R1), every storage future is polled in the same body or "
                "handed to the caller (R2), the error edge of every ?-checked storage call in the mutating / reading entry points reaches Return without any "
-               "further storage operation, in-memory commit or event (R3), in-memory commits are dominated by the successful oplog entry write (R4 = C02.R1/R2), "
+               "further storage operation, in-memory commit or event, and a storage result that is never branched on (returned as is, or fed to an eager combinator such as Result::and) is the last effect of its function (R3), in-memory commits are dominated by the successful oplog entry write (R4 = C02.R1/R2), "
                "and every RandomAccess error is converted by map_random_access_err or an explicit match, each arm building a HypercoreError (R5). R6: within a flush the header is written before the log is truncated, so that a failed header write loses nothing that was acknowledged (shared with C02.R5).")
 NOT_DECIDED = "that reopening after the failure yields the before-or-after state (C02's undecided part); hangs or panics inside a backend; errors injected during Oplog::open parsing."
 ASSUMPTIONS = ["a backend reports failure through the RandomAccessError return value"]
